@@ -1457,6 +1457,10 @@ def p_constantValueList(p):
         p[0] = p[1] + [p[3]]
 
 
+# The characters DSP0004 allows as hex digits, in upper case
+_HEX_DIGITS = frozenset('0123456789ABCDEF')
+
+
 def _fixStringValue(s, p):
     """Clean up string value including special characters, etc."""
 
@@ -1496,7 +1500,7 @@ def _fixStringValue(s, p):
             while j < 4 and i + j < len(s):
                 c = s[i + j]
                 c = c.upper()
-                if not c.isdigit() and c not in 'ABCDEF':
+                if c not in _HEX_DIGITS:
                     break
                 hexc <<= 4
                 if c.isdigit():
